@@ -95,7 +95,12 @@ def escapes(p: Path, e: Event, *, value_kinds: Optional[Dict[str, str]] = None) 
                 continue
             if isinstance(a, Const):
                 continue
-            why = f"{op}({a.key()[:50] if a is not None else ''}) on a possibly non-finite float"
+            if x is TypeError:
+                if ak in ("float", "str", "bytes") or a is None:
+                    continue
+                why = f"{op}({a.key()[:50]}) on a value that may be None / not a number"
+            else:
+                why = f"{op}({a.key()[:50] if a is not None else ''}) on a possibly non-finite float"
         elif op == "builtins.float":
             continue
         elif op == "order":
@@ -137,6 +142,9 @@ def escapes(p: Path, e: Event, *, value_kinds: Optional[Dict[str, str]] = None) 
             if isinstance(b, Const) and b.value:
                 continue
             why = "division by a possibly zero value"
+        elif op == "format-template":
+            why = (f"str.format on a template that embeds a runtime value ({operands[0].key()[:50]}): a `{{` or `}}` in that "
+                   "value is parsed as a replacement field")
         elif op == "hash":
             why = f"{d.get('what', 'hashing')} with a key that may be unhashable ({operands[0].key()[:50]}): TypeError"
         elif op == "sorted":
